@@ -9,16 +9,18 @@ if ! git apply --check "$patch" 2>/dev/null; then echo "PATCH-DOES-NOT-APPLY $pa
 git apply "$patch"
 rm -rf /verif/harness/target/evidence_bak && cp -r /verif/evidence /verif/harness/target/evidence_bak
 trap 'git -C /repo checkout -- . ; git -C /repo clean -fdq marwood/tests 2>/dev/null; rm -rf /verif/evidence; cp -r /verif/harness/target/evidence_bak /verif/evidence' EXIT
+if [ -z "$SKIP_SUITE" ]; then   # SKIP_SUITE=1: the suite was already confirmed in the scratch worktree (tools/confirm_mutant.sh)
 out=$(cargo test --workspace --no-fail-fast --offline 2>&1); rc=$?
 passed=$(echo "$out" | grep -E '^test result: ok' | sed -E 's/.* ([0-9]+) passed.*/\1/' | paste -sd+ | bc)
 echo "suite-with-mutant: rc=$rc passed=$passed"
 if [ $rc -ne 0 ]; then echo "$out" | grep -E 'FAILED|panicked|^error' | head -5; fi
+fi
 cd /verif
 for p in "$@"; do
   s=$(date +%s)
-  ./check $p --tier $tier > /tmp/mut_$p.log 2>&1; crc=$?
+  ./check $p --tier $tier > ${TRIAL_LOG:-/tmp/mut_$p.log} 2>&1; crc=$?
   e=$(date +%s)
-  nv=$(grep -c '^VIOLATION' /tmp/mut_$p.log)
-  first=$(grep -m1 '  sig=' /tmp/mut_$p.log | cut -c1-160)
+  nv=$(grep -c '^VIOLATION' ${TRIAL_LOG:-/tmp/mut_$p.log})
+  first=$(grep -m1 '  sig=' ${TRIAL_LOG:-/tmp/mut_$p.log} | cut -c1-160)
   echo "check $p tier=$tier exit=$crc violations=$nv wall=$((e-s))s $first"
 done
